@@ -43,6 +43,10 @@ def base_traffic(rng, tree, keys, cr, nonce):
     out.append(("get_data_tx", fr(GetDataMessage(DATA_TRANSACTION, gens.rb(rng, 32)), rng)))
     out.append(("data_known_block", fr(DataMessage(DATA_BLOCK, rng.choice(blocks)), rng)))
     out.append(("data_header", fr(DataMessage(DATA_HEADER, rng.choice(blocks).header), rng)))
+    # a payload type code that no handler knows (the decoder's table raises KeyError with a bytes argument)
+    unk = bytearray(fr(DataMessage(DATA_BLOCK, rng.choice(blocks)), rng))
+    unk[8 + 55:8 + 57] = bytes([0, rng.choice([7, 9, 0x7f])])
+    out.append(("data_unknown_type", bytes(unk)))
     out.append(("get_peers", fr(GetPeersMessage(), rng)))
     out.append(("peers", fr(PeersMessage([Peer(0, IPv6Address("::ffff:10.1.2.%d" % rng.randrange(1, 250)), 2412)
                                           for _ in range(rng.randrange(0, 3))]), rng)))
@@ -56,11 +60,13 @@ def base_traffic(rng, tree, keys, cr, nonce):
             odd.append(Peer(0, IPv6Address(v), rng.choice([2412, 0, 65535])))
     out.append(("peers_not_ipv4_mapped", fr(PeersMessage(odd), rng)))
     # structurally invalid / rule-violating blocks and transactions
-    for _ in range(3):
-        klass = rng.choice([c for c in ledger.classes_for("all") if c not in ledger.EXPECT_VALID
-                            and c not in ledger.UNDETERMINED
-                            # invalid only relative to the clock the candidate was built for, not this node's clock
-                            and c != "ts_future_31"])
+    for forced in ("missing_output", None, None):
+        # (a block that is valid by itself and spends an output that does not exist makes the application of the block raise
+        # KeyError with a non-string argument — always present)
+        klass = forced or rng.choice([c for c in ledger.classes_for("all") if c not in ledger.EXPECT_VALID
+                                      and c not in ledger.UNDETERMINED
+                                      # invalid only relative to the clock the candidate was built for, not this node's clock
+                                      and c != "ts_future_31"])
         try:
             c = ledger.make_candidate(cr, klass, rng.choice(blocks[-5:]).hash(), [])
         except Exception:
